@@ -57,3 +57,188 @@ Definition schnorr_accepts (pk msg sig : bytes) : bool :=
   match schnorr_verify_bytes pk msg sig with Ok true => true | _ => false end.
 
 End SchnorrBytes.
+
+(* ------------------------------------------------------------------------------------------
+   The object-level Schnorr API (what sign_schnorr returns before .serialize(), the aux=None
+   default, SchnorrSignature.__eq__) and the same functions with TAG_HASH_CACHE threaded
+   through as explicit state.  Definitions only. *)
+Section SchnorrApi.
+Variable C : curve.
+Variable sha256 : bytes -> bytes.
+Let n := cn C.
+
+(* `if aux is None: aux = b"\x00" * 32` (PrivateKey.bip340_k; sign_schnorr passes aux on) *)
+Definition aux_default (aux : option bytes) : bytes :=
+  match aux with Some a => a | None => repeatz 0 32 end.
+Definition bip340_k_opt (secret : Z) (msg : bytes) (aux : option bytes) : result Z :=
+  bip340_k C sha256 secret msg (aux_default aux).
+Definition schnorr_sign_opt (secret : Z) (msg : bytes) (aux : option bytes) : result bytes :=
+  schnorr_sign C sha256 secret msg (aux_default aux).
+
+(* PrivateKey.sign_schnorr as it returns: the SchnorrSignature object (r, s) *)
+Definition schnorr_sign_obj (secret : Z) (msg aux : bytes) : result (point * Z) :=
+  P <- pubkey C secret ;;
+  e <- even_secret C secret ;;
+  k0 <- bip340_k C sha256 secret msg aux ;;
+  r0 <- rmul C k0 (G C) ;;
+  par <- parity r0 ;;
+  let k := if par =? 1 then n - k0 else k0 in
+  r <- (if par =? 1 then rmul C k (G C) else Ok r0) ;;
+  let h := from_be (tagged_hash sha256 tag_challenge (xonly r ++ xonly P ++ msg)) mod n in
+  let s := (k + e * h) mod n in
+  if n <=? s then Err
+  else
+    ok <- schnorr_verify C sha256 P msg r s ;;
+    if ok then Ok (r, s) else Err.
+
+(* S256Point.__eq__ (x == x and y == y; FieldElement.__eq__(None) is False) *)
+Definition pt_eq (P Q : point) : bool :=
+  match P, Q with
+  | None, None => true
+  | Some (x, y), Some (x', y') => (x =? x') && (y =? y')
+  | _, _ => false
+  end.
+(* SchnorrSignature.__eq__ *)
+Definition schnorr_sig_eq (a b : point * Z) : bool :=
+  pt_eq (fst a) (fst b) && (snd a =? snd b).
+(* SchnorrSignature.parse(a) == SchnorrSignature.parse(b) *)
+Definition schnorr_parse_eq (a b : bytes) : result bool :=
+  x <- schnorr_parse C a ;; y <- schnorr_parse C b ;; Ok (schnorr_sig_eq x y).
+(* SchnorrSignature.parse(sig).serialize() *)
+Definition schnorr_reserialize (sig : bytes) : result bytes :=
+  '(r, s) <- schnorr_parse C sig ;; schnorr_serialize r s.
+
+(* point.verify_schnorr(msg, SchnorrSignature.parse(sig)) on a point OBJECT given by its
+   coordinates (any point the constructor accepts, either parity; [] = infinity) *)
+Definition schnorr_verify_point (P : point) (msg sig : bytes) : result bool :=
+  '(r, s) <- schnorr_parse C sig ;; schnorr_verify C sha256 P msg r s.
+
+(* ---- the same code with the tag cache as state ---- *)
+Definition th (c : cache) (tag msg : bytes) : cache * bytes := th_step sha256 c (tag, msg).
+
+(* the part of verify_schnorr after the challenge hash *)
+Definition schnorr_verify_tail (pt r : point) (s : Z) (h : bytes) : result bool :=
+  let e := from_be h mod n in
+  eP <- rmul C (- e) pt ;;
+  res <- padd_int C eP s ;;
+  match res with
+  | None => Ok false
+  | Some (x, y) => if y mod 2 =? 1 then Ok false else Ok (beq (xonly res) (xonly r))
+  end.
+
+Definition schnorr_verify_st (c : cache) (P : point) (msg : bytes) (r : point) (s : Z)
+  : cache * result bool :=
+  match even_point C P with
+  | Err => (c, Err)
+  | Ok pt =>
+      match r with
+      | None => (c, Ok false)
+      | Some _ =>
+          let '(c1, h) := th c tag_challenge (xonly r ++ xonly pt ++ msg) in
+          (c1, schnorr_verify_tail pt r s h)
+      end
+  end.
+
+Definition bip340_k_st (c : cache) (secret : Z) (msg aux : bytes) : cache * result Z :=
+  match pubkey C secret with
+  | Err => (c, Err)
+  | Ok P =>
+      match even_secret C secret with
+      | Err => (c, Err)
+      | Ok e =>
+          if negb (length msg =? 32)%nat || negb (length aux =? 32)%nat then (c, Err)
+          else
+            match int_to_be e 32 with
+            | Err => (c, Err)
+            | Ok eb =>
+                let '(c1, ha) := th c tag_aux aux in
+                let t := xor_bytes eb ha in
+                let '(c2, hn) := th c1 tag_nonce (t ++ xonly P ++ msg) in
+                (c2, Ok (from_be hn mod n))
+            end
+      end
+  end.
+
+Definition schnorr_sign_st (c : cache) (secret : Z) (msg aux : bytes) : cache * result bytes :=
+  match pubkey C secret with
+  | Err => (c, Err)
+  | Ok P =>
+      match even_secret C secret with
+      | Err => (c, Err)
+      | Ok e =>
+          let '(c1, kr) := bip340_k_st c secret msg aux in
+          match kr with
+          | Err => (c1, Err)
+          | Ok k0 =>
+              match rmul C k0 (G C) with
+              | Err => (c1, Err)
+              | Ok r0 =>
+                  match parity r0 with
+                  | Err => (c1, Err)
+                  | Ok par =>
+                      let k := if par =? 1 then n - k0 else k0 in
+                      match (if par =? 1 then rmul C k (G C) else Ok r0) with
+                      | Err => (c1, Err)
+                      | Ok r =>
+                          let '(c2, hh) := th c1 tag_challenge (xonly r ++ xonly P ++ msg) in
+                          let h := from_be hh mod n in
+                          let s := (k + e * h) mod n in
+                          if n <=? s then (c2, Err)
+                          else
+                            let '(c3, okr) := schnorr_verify_st c2 P msg r s in
+                            (c3, ok <- okr ;; if ok then schnorr_serialize r s else Err)
+                      end
+                  end
+              end
+          end
+      end
+  end.
+
+(* parse + parse + verify with the cache as state *)
+Definition schnorr_verify_bytes_st (c : cache) (pk msg sig : bytes) : cache * result bool :=
+  match parse_point C pk with
+  | Err => (c, Err)
+  | Ok P =>
+      match schnorr_parse C sig with
+      | Err => (c, Err)
+      | Ok (r, s) => schnorr_verify_st c P msg r s
+      end
+  end.
+
+(* a session: any interleaving of tagged_hash calls, sign_schnorr(...).serialize() and
+   S256Point.parse(pk).verify_schnorr(msg, SchnorrSignature.parse(sig)), sharing the cache *)
+Inductive api_call :=
+  | CallHash (tag msg : bytes)
+  | CallSign (d : Z) (m a : bytes)
+  | CallVerify (pk m sig : bytes).
+Inductive api_out := OutHash (h : bytes) | OutSign (r : result bytes) | OutVerify (r : result bool).
+
+Definition api_step (c : cache) (call : api_call) : cache * api_out :=
+  match call with
+  | CallHash t m => let '(c1, h) := th c t m in (c1, OutHash h)
+  | CallSign d m a => let '(c1, r) := schnorr_sign_st c d m a in (c1, OutSign r)
+  | CallVerify pk m sig => let '(c1, r) := schnorr_verify_bytes_st c pk m sig in (c1, OutVerify r)
+  end.
+Definition api_pure (call : api_call) : api_out :=
+  match call with
+  | CallHash t m => OutHash (tagged_hash sha256 t m)
+  | CallSign d m a => OutSign (schnorr_sign C sha256 d m a)
+  | CallVerify pk m sig => OutVerify (schnorr_verify_bytes C sha256 pk m sig)
+  end.
+Fixpoint api_run (c : cache) (calls : list api_call) : cache * list api_out :=
+  match calls with
+  | [] => (c, [])
+  | call :: rest =>
+      let '(c1, o) := api_step c call in
+      let '(c2, os) := api_run c1 rest in
+      (c2, o :: os)
+  end.
+
+
+End SchnorrApi.
+
+(* the canonical 64-byte form of a signature string of at least 32 bytes, as SchnorrSignature.parse
+   reads it: the first 32 bytes, and bytes 32..63 (a short tail is what BytesIO.read(32) returns)
+   as a big-endian integer *)
+Definition sig_canon (sig : bytes) : bytes :=
+  firstn 32 sig ++ to_be 32 (from_be (firstn 32 (skipn 32 sig))).
